@@ -1272,7 +1272,7 @@ class Card:
             title = val.title
             yield title, level
 
-            if val.subsections:
+            if val.subsections and not getattr(val, "folded", False):
                 yield from self._iterate_key_section_content(
                     val.subsections,
                     level=level + 1,
